@@ -30,9 +30,9 @@ type PatSpec struct {
 	New      bool     `json:"new,omitempty"`
 	Calls    []string `json:"calls,omitempty"`
 	Auths    []string `json:"auths,omitempty"`
-	Apply    string   `json:"apply,omitempty"`    // "", "ok", "fail", "nochange"
-	Listen   int      `json:"listen,omitempty"`   // number of listeners
-	Nest     bool     `json:"nest,omitempty"`     // listener 0 emits a nested custom event on the same resource
+	Apply    string   `json:"apply,omitempty"`  // "", "ok", "fail", "nochange"
+	Listen   int      `json:"listen,omitempty"` // number of listeners
+	Nest     bool     `json:"nest,omitempty"`   // listener 0 emits a nested custom event on the same resource
 }
 
 // Op is one scripted operation of an actor.
@@ -58,21 +58,21 @@ type ActorSpec struct {
 
 // SvcCase is a generated test case for the service scenarios.
 type SvcCase struct {
-	SvcName    string      `json:"svc_name"`
-	Workers    int         `json:"workers"`
-	InCh       int         `json:"in_ch"`
-	QueryMs    int         `json:"query_ms"`
-	Pats       []PatSpec   `json:"pats"`
-	Actors     []ActorSpec `json:"actors"`
-	Epochs     int         `json:"epochs"`
-	MidStop    []int       `json:"mid_stop"` // per epoch: <0 clean shutdown at quiescence, else earliest step for Shutdown
-	Optional   []string    `json:"optional"` // enabled optional yield points; ["*"] = all
-	Gate       bool        `json:"gate"`     // hold actors until the service announced itself
-	LosePct    int         `json:"lose_pct,omitempty"`
-	PubFailPct int         `json:"pubfail_pct,omitempty"`
-	SubFailAt  int         `json:"subfail_at,omitempty"` // n-th subscribe fails (1-based), 0 = never
+	SvcName    string       `json:"svc_name"`
+	Workers    int          `json:"workers"`
+	InCh       int          `json:"in_ch"`
+	QueryMs    int          `json:"query_ms"`
+	Pats       []PatSpec    `json:"pats"`
+	Actors     []ActorSpec  `json:"actors"`
+	Epochs     int          `json:"epochs"`
+	MidStop    []int        `json:"mid_stop"` // per epoch: <0 clean shutdown at quiescence, else earliest step for Shutdown
+	Optional   []string     `json:"optional"` // enabled optional yield points; ["*"] = all
+	Gate       bool         `json:"gate"`     // hold actors until the service announced itself
+	LosePct    int          `json:"lose_pct,omitempty"`
+	PubFailPct int          `json:"pubfail_pct,omitempty"`
+	SubFailAt  int          `json:"subfail_at,omitempty"` // n-th subscribe fails (1-based), 0 = never
 	Owned      *[2][]string `json:"owned,omitempty"`
-	QueueGroup *string     `json:"queue_group,omitempty"`
+	QueueGroup *string      `json:"queue_group,omitempty"`
 }
 
 // Submission is the oracle's view of one op.
@@ -137,16 +137,16 @@ type EpochInfo struct {
 
 // Engine runs a SvcCase on a real res.Service inside the simulator.
 type Engine struct {
-	Sim   *sched.Sim
-	H     *Hist
-	Case  *SvcCase
-	Svc   *res.Service
-	Pats  []model.Pat
-	Subs  []*Submission // indexed by op id
+	Sim       *sched.Sim
+	H         *Hist
+	Case      *SvcCase
+	Svc       *res.Service
+	Pats      []model.Pat
+	Subs      []*Submission // indexed by op id
 	bySubject map[string]*Submission
-	Epochs []*EpochInfo
-	cur    atomic.Int32 // current epoch index
-	Conn   *simconn.Conn
+	Epochs    []*EpochInfo
+	cur       atomic.Int32 // current epoch index
+	Conn      *simconn.Conn
 
 	actorsDone atomic.Int32
 	nActors    int
@@ -154,11 +154,11 @@ type Engine struct {
 	subCount   int
 	rng        uint64
 
-	QEs []*QEInfo
-	curReq *Submission
-	idleNow bool
-	subsChecked bool
-	Mon *simconn.Monitor
+	QEs                  []*QEInfo
+	curReq               *Submission
+	idleNow              bool
+	subsChecked          bool
+	Mon                  *simconn.Monitor
 	foreignShutdownEpoch int
 
 	// Extra hooks for scenario specific behaviour.
@@ -177,18 +177,18 @@ type groupScratch struct {
 
 // QEInfo tracks one query event started by a handler script.
 type QEInfo struct {
-	ID       int
-	RName    string
-	Group    string
-	Subject  string
-	Start    time.Time
-	StartSeq uint64
-	NilCalls []uint64
-	Calls    []uint64 // seq of non-nil callback starts
-	Expired  bool
+	ID        int
+	RName     string
+	Group     string
+	Subject   string
+	Start     time.Time
+	StartSeq  uint64
+	NilCalls  []uint64
+	Calls     []uint64 // seq of non-nil callback starts
+	Expired   bool
 	SubFailed bool
-	NilAt    []time.Time
-	Script   []string
+	NilAt     []time.Time
+	Script    []string
 }
 
 type simLogger struct{ e *Engine }
@@ -757,6 +757,13 @@ func (e *Engine) StartActors() {
 				e.Sim.Yield("call.return", "serve")
 				if err != nil && err.Error() == "res: service is not stopped" && try < 50 {
 					e.H.Rec("serve.retry", "", 0, err.Error())
+					if try >= 2 {
+						// the first tries race with the tail of Shutdown;
+						// later ones wait until it can have finished, so
+						// that a schedule staying with this task cannot use
+						// up the tries
+						e.Sim.Yield("serve.retrywait", strconv.Itoa(i))
+					}
 					continue
 				}
 				if err != nil {
